@@ -315,13 +315,13 @@ func (c06) Exec(sci interface{}, env *Env) *Violation {
 			cands = append(cands, s.Next(toModelReq(req))...)
 		}
 		// a state the model cannot follow ends the comparison
-		allUnknown := true
+		anyUnknown := false
 		for _, c := range cands {
-			if c.Last != model.KUnknown {
-				allUnknown = false
+			if c.Last == model.KUnknown {
+				anyUnknown = true
 			}
 		}
-		if allUnknown {
+		if anyUnknown {
 			env.Class("stop/unknown-opcode")
 			return nil
 		}
